@@ -429,7 +429,8 @@ mapper** (`Item.raise e` at the scheduled action): `on_error e`, everything clos
 theorem no_escape_seq_factory {α} (kind : Comb.SeqKind) (items : Nat → Comb.Item) (e : Err) (st : Comb.St Comb.SeqSt)
     (hp : st.s.pending = true) (hi : items st.s.idx = .raise e) (hd : st.p.done = false) :
     Comb.DeliveredAt (Comb.seqM (α := α) kind items) st .tick e :=
-  Comb.raise_delivered_tick _ st e { st.s with pending := false } hd (by simp [Comb.seqM, Comb.seqTick, hp, hi])
+  Comb.raise_delivered_tick _ st e { st.s with pending := false, calls := st.s.calls ++ [(st.s.idx, st.s.arg)] } hd
+    (by simp [Comb.seqM, Comb.seqTick, hp, hi])
 
 example : Comb.emits (Comb.run (Comb.seqM (α := Nat) .oern (fun j => if j = 0 then .src else .raise "factory")) Comb.seqInit
     [.tick, .src 0 (.next 1), .src 0 (.error "x"), .tick, .tick, .src 1 (.next 2)]) = [.next 1, .error "factory"] := by decide
